@@ -276,6 +276,10 @@ def rename_map(trees):
                     while isinstance(root, (ast.Attribute, ast.Subscript, ast.Call)):
                         root = root.value if not isinstance(root, ast.Call) else root.func
                     kind = ("attr", scope.get(id(n)), root.id if isinstance(root, ast.Name) else "?")
+                    if isinstance(root, ast.Name) and root.id[:1].isupper():
+                        # an attribute reached through the class itself (Class.attr) is one entity wherever it is written: if the old name
+                        # is still used that way anywhere, the rename is incomplete - and an incomplete rename changes behaviour
+                        occ.setdefault(ident, set()).add(("*", ("attr-of-class", root.id)))
                 occ.setdefault(ident, set()).add((rel, kind))
     for a, b in list(out.items()):
         if occ.get(a, set()) & occ.get(b, set()):
